@@ -114,24 +114,28 @@ const (
 	rEmbeddedParent
 	rWrongType
 	rForeignAuthor
+	rOtherQuery
 	rKinds
 )
 
 func c09Reply(kind int) (json string, genuine bool) {
 	switch kind {
 	case rLegit:
-		return `{"type":"Note","content":"r","inReplyTo":"` + c09A + `/post"}`, true
+		return `{"type":"Note","content":"r","inReplyTo":"` + c09A + `/post?n=1"}`, true
 	case rOtherParent:
 		return `{"type":"Note","content":"r","inReplyTo":"` + c09A + `/otherpost"}`, false
 	case rNoParent:
 		return `{"type":"Note","content":"r"}`, false
 	case rEmbeddedParent:
-		return `{"type":"Note","content":"r","inReplyTo":{"type":"Note","id":"` + c09A + `/post","content":"embedded parent"}}`, true
+		return `{"type":"Note","content":"r","inReplyTo":{"type":"Note","id":"` + c09A + `/post?n=1","content":"embedded parent"}}`, true
 	case rWrongType:
 		return `{"type":"Person","name":"not a post"}`, false
+	case rOtherQuery:
+		// answers a different post of the same server, told apart only by the query string
+		return `{"type":"Note","content":"r","inReplyTo":"` + c09A + `/post?n=2"}`, false
 	default:
 		// a reply that claims an author living on another host
-		return `{"type":"Note","content":"r","inReplyTo":"` + c09A + `/post","id":"` + c09A + `/reply","name":"x","attributedTo":"` + c09B + `/actor2"}`, false
+		return `{"type":"Note","content":"r","inReplyTo":"` + c09A + `/post?n=1","id":"` + c09A + `/reply","name":"x","attributedTo":"` + c09B + `/actor2"}`, false
 	}
 }
 
@@ -140,6 +144,7 @@ func c09Reply(kind int) (json string, genuine bool) {
 func VerifC09Replies() {
 	w := c09World()
 	w.Routes[jtp.VHostA+"/otherpost"] = c09Doc(`{"type":"Note","id":"` + c09A + `/otherpost","content":"another post"}`)
+	w.Routes[jtp.VHostA+"/post?n=2"] = c09Doc(`{"type":"Note","id":"` + c09A + `/post?n=2","content":"post number two"}`)
 	n := verifrt.Choice("replies", verifrt.Param("entries", 2)+1)
 	var parts []string
 	var want []bool
@@ -157,12 +162,12 @@ func VerifC09Replies() {
 		author = `"attributedTo":"` + c09B + `/actor2",`
 		authorOK = false
 	}
-	postDoc := `{"type":"Note","id":"` + c09A + `/post",` + author + `"content":"the post","replies":{"type":"Collection","items":[` + strings.Join(parts, ",") + `]}}`
-	w.Routes[jtp.VHostA+"/post"] = c09Doc(postDoc)
-	w.Routes[jtp.VHostA+"/reply"] = c09Doc(`{"type":"Note","content":"r","inReplyTo":"` + c09A + `/post","id":"` + c09A + `/reply","name":"x","attributedTo":"` + c09B + `/actor2"}`)
+	postDoc := `{"type":"Note","id":"` + c09A + `/post?n=1",` + author + `"content":"the post","replies":{"type":"Collection","items":[` + strings.Join(parts, ",") + `]}}`
+	w.Routes[jtp.VHostA+"/post?n=1"] = c09Doc(postDoc)
+	w.Routes[jtp.VHostA+"/reply"] = c09Doc(`{"type":"Note","content":"r","inReplyTo":"` + c09A + `/post?n=1","id":"` + c09A + `/reply","name":"x","attributedTo":"` + c09B + `/actor2"}`)
 	jtp.VerifUseWorld(w, 16)
 
-	item := New(c09A+"/post", nil)
+	item := New(c09A+"/post?n=1", nil)
 	post, ok := item.(*Post)
 	verifrt.Assert(ok == authorOK, "post-shown-with-an-author-only-from-its-own-host")
 	if !ok {
